@@ -224,6 +224,9 @@ func c19WellShaped(q [4][2]float64, minFrac float64) bool {
 
 var c19Families = []string{"axis", "rotated", "sheared", "perspective"}
 
+// the transform cases add keystone trapezoids (exactly one vanishing coordinate sum)
+var c19TransformFamilies = []string{"axis", "rotated", "sheared", "perspective", "trapezoid"}
+
 // c19Quad builds a quadrilateral of the family around centre (cx,cy) with
 // half-size about `size`; corners in cyclic order starting top-left.
 func c19Quad(rng *fw.Rand, family string, cx, cy, size float64) [4][2]float64 {
@@ -248,6 +251,41 @@ func c19Quad(rng *fw.Rand, family string, cx, cy, size float64) [4][2]float64 {
 		for i, p := range base {
 			x, y := p[0]+kx*p[1], p[1]+ky*p[0]
 			q[i] = [2]float64{c*x - s*y, s*x + c*y}
+		}
+	case "trapezoid":
+		// keystone shapes: exactly one of the sums x0-x1+x2-x3 / y0-y1+y2-y3 vanishes (in float
+		// arithmetic too: integer coordinates), the other does not - a perspective map that an
+		// "is it affine?" shortcut testing only one coordinate would mistake for affine
+		n := func(lo, hi float64) float64 { return math.Round(lo + (hi-lo)*rng.Float()) }
+		w, h := math.Max(4, math.Round(hw)), math.Max(4, math.Round(hh))
+		switch rng.Intn(3) {
+		case 0: // two vertical parallel sides of different length
+			d1, d2 := n(0, 0.45*h), n(0, 0.45*h)
+			if d1 == d2 {
+				d1 += 1
+			}
+			q = [4][2]float64{{-w, -h}, {w, -h + d1}, {w, h - d2}, {-w, h}}
+			if d1-d2 == 0 {
+				q[2][1] -= 1
+			}
+		case 1: // two horizontal parallel sides of different length
+			d1, d2 := n(0, 0.45*w), n(0, 0.45*w)
+			q = [4][2]float64{{-w + d1, -h}, {w - d2, -h}, {w, h}, {-w, h}}
+			if d1 == 0 && d2 == 0 {
+				q[0][0] += 1
+			}
+			if q[0][0]-q[1][0]+q[2][0]-q[3][0] == 0 {
+				q[1][0] -= 1
+			}
+		default: // no parallel sides: x3 chosen so that the x sum cancels exactly
+			q = [4][2]float64{{-w, -h}, {w + n(-0.3*w, 0.3*w), -h + n(-0.3*h, 0.3*h)}, {w, h}, {0, h + n(0.1*h, 0.4*h)}}
+			q[3][0] = q[0][0] - q[1][0] + q[2][0]
+		}
+		if rng.Bool() { // transpose: the y sum cancels instead
+			for i := range q {
+				q[i][0], q[i][1] = q[i][1], q[i][0]
+			}
+			q[1], q[3] = q[3], q[1]
 		}
 	default: // perspective: every corner moved independently
 		th := rng.Float() * 2 * math.Pi
@@ -443,8 +481,8 @@ func c19CheckTransform(r *fw.Rec, t *common.PerspectiveTransform, what, family s
 func c19TransformCase(r *fw.Rec, idx int) {
 	rng := r.Rng
 	for rep := 0; rep < 12; rep++ {
-		srcFam := c19Families[rng.Intn(4)]
-		dstFam := c19Families[(idx+rep)%4]
+		srcFam := c19TransformFamilies[rng.Intn(5)]
+		dstFam := c19TransformFamilies[(idx+rep)%5]
 		magS := []float64{1, 10, 100, 1000}[rng.Intn(4)] * (1 + rng.Float())
 		magD := []float64{1, 10, 100, 1000}[rng.Intn(4)] * (1 + rng.Float())
 		src := c19GenQuad(rng, srcFam, (rng.Float()*6-3)*magS, (rng.Float()*6-3)*magS, magS)
@@ -459,6 +497,19 @@ func c19TransformCase(r *fw.Rec, idx int) {
 			srcFam = "axis"
 		}
 		fam := dstFam
+		for _, q := range [][4][2]float64{src, dst} {
+			sx := q[0][0] - q[1][0] + q[2][0] - q[3][0]
+			sy := q[0][1] - q[1][1] + q[2][1] - q[3][1]
+			if (sx == 0) != (sy == 0) {
+				r.Tally("quads_with_exactly_one_vanishing_coordinate_sum")
+			}
+		}
+		if srcFam == "trapezoid" {
+			srcFam = "perspective"
+		}
+		if dstFam == "trapezoid" {
+			dstFam, fam = "perspective", "perspective"
+		}
 		if srcFam == "perspective" || dstFam == "perspective" {
 			fam = "perspective"
 		} else if srcFam == "sheared" || dstFam == "sheared" {
@@ -1597,7 +1648,7 @@ func c19SelfTest() error {
 }
 
 func c19(c *fw.Ctx) {
-	c.Rule("transform: seeded convex quadrilateral pairs of four families (axis-aligned rectangle, rotated rectangle, sheared parallelogram, perspective = every corner moved independently; both orientations, any starting corner, magnitudes 1..2000, grid-like sources), rejected unless every corner triangle holds >= 8% of the squared diameter; QuadrilateralToQuadrilateral / SquareToQuadrilateral / QuadrilateralToSquare checked through TransformPoints and TransformPointsXY on the 4 corners and 24 interior/exterior points against the projective map solved exactly (8x9 system, big.Rat), points with |denominator| < 0.2 of the corner denominators skipped. sampling: every grid dimension 1..177 (square) plus random non-square/special dimensions, images 2..307 px (noise, all-black, blocks, black/white frame), grid->image pairs of the four families fitted so that the hull of the cell centres lies inside the image (class inside) or overhangs each edge by <1 px, 1..2 px, >2 px (class overhang), or is an affine map aimed at one band x one pass (class targeted); class central: the defining square is small and in the middle of a 15..151 module grid (Aztec bull's eye / QR margin style) with a perspective destination and no restriction on the denominator - where it changes sign inside the grid only no-panic, no-read-outside-the-image and the error kind are demanded; expected bit = model pixel at floor of the exactly mapped cell centre (big.Int homogeneous arithmetic), bands [-1,0)/[n,n+1) -> index 0/n-1; direct calls of checkAndNudgePoints with 1..3 leading/trailing points in each band. distinct = distinct (quadrilateral pair, dims, image size)")
+	c.Rule("transform: seeded convex quadrilateral pairs of four families (axis-aligned rectangle, rotated rectangle, sheared parallelogram, perspective = every corner moved independently, trapezoid = keystone shapes on integer coordinates where exactly one of the sums x0-x1+x2-x3 / y0-y1+y2-y3 vanishes; both orientations, any starting corner, magnitudes 1..2000, grid-like sources), rejected unless every corner triangle holds >= 8% of the squared diameter; QuadrilateralToQuadrilateral / SquareToQuadrilateral / QuadrilateralToSquare checked through TransformPoints and TransformPointsXY on the 4 corners and 24 interior/exterior points against the projective map solved exactly (8x9 system, big.Rat), points with |denominator| < 0.2 of the corner denominators skipped. sampling: every grid dimension 1..177 (square) plus random non-square/special dimensions, images 2..307 px (noise, all-black, blocks, black/white frame), grid->image pairs of the four families fitted so that the hull of the cell centres lies inside the image (class inside) or overhangs each edge by <1 px, 1..2 px, >2 px (class overhang), or is an affine map aimed at one band x one pass (class targeted); class central: the defining square is small and in the middle of a 15..151 module grid (Aztec bull's eye / QR margin style) with a perspective destination and no restriction on the denominator - where it changes sign inside the grid only no-panic, no-read-outside-the-image and the error kind are demanded; expected bit = model pixel at floor of the exactly mapped cell centre (big.Int homogeneous arithmetic), bands [-1,0)/[n,n+1) -> index 0/n-1; direct calls of checkAndNudgePoints with 1..3 leading/trailing points in each band. distinct = distinct (quadrilateral pair, dims, image size)")
 	c.Assume("don't-care: coordinates in (-2,-1) may be nudged to 0 or refused (DESIGN C19); cells whose exact centre is within 1e-6*max(1,|coord|) of a pixel boundary are not asserted; calls with a cell within that margin of the -2 / n+1 limits have no demanded outcome; transforms whose denominator changes sign or falls below 15% of its maximum inside the grid rectangle are not generated (a straight grid row then maps to a straight monotone run of points, which is what makes checking only the row ends sufficient); checkAndNudgePoints is only charged for points at the ends of the list; after checkAndNudgePoints only the pixel index that SampleGrid derives from each coordinate (int(v), i.e. a value left in (-1,0) counts as index 0) is demanded, not its exact value; the hook counts BitMatrix.Get calls with out-of-range coordinates: such a call is charged as 'pixel outside the image read' although Get answers false without touching memory")
 	nT := c.Pick(400, 6000)
 	for i := 0; i < nT; i++ {
@@ -1634,6 +1685,7 @@ func c19(c *fw.Ctx) {
 		c.Floor("quad_pairs_"+f, 100)
 		c.Floor("calls_matrix_compared_"+f, 50)
 	}
+	c.Floor("quads_with_exactly_one_vanishing_coordinate_sum", 200)
 	c.Floor("corners_checked", 5000)
 	c.Floor("points_checked_interior", 5000)
 	c.Floor("points_checked_exterior", 5000)
